@@ -247,7 +247,7 @@ def rule_agree(ctx):
 
 
 def rule_apply(ctx):
-    r = RuleResult("C07-APPLY", "ContractionTree.slice applies exactly the returned set", 1)
+    r = RuleResult("C07-APPLY", "ContractionTree.slice applies exactly the returned set", 3)
     tc = tree_class(ctx)
     sl = tc.lookup("slice")
     C.require(sl is not None, "ContractionTree.slice not found")
@@ -286,6 +286,31 @@ def rule_apply(ctx):
         r.violation(key, C.loc(sl, calls[0]), f"slice() does not forward {miss} to SliceFinder")
     else:
         r.ok(key, C.loc(sl, calls[0]), "targets and allow_outer forwarded")
+    # the model is built from the very object the indices are then removed from
+    # (with reslice / inplace=False the working tree differs from self)
+    key = ctx.key(sl, "C07-APPLY", "same-tree")
+
+    def root(e):
+        seen = set()
+        while isinstance(e, ast.Name) and e.id not in seen:
+            seen.add(e.id)
+            defs = la.get(e.id, [])
+            if len(defs) == 1 and isinstance(defs[0], ast.Name):
+                e = defs[0]
+            else:
+                break
+        return C.unparse(e)
+
+    modelled = root(calls[0].args[0]) if calls[0].args else None
+    applied = {root(n.func.value) for n in walk_local(sl.node)
+               if isinstance(n, ast.Call) and isinstance(n.func, ast.Attribute)
+               and n.func.attr in ("remove_ind_", "remove_ind")}
+    if modelled is not None and applied == {modelled}:
+        r.ok(key, C.loc(sl, calls[0]), f"SliceFinder models `{modelled}`, the tree that is sliced")
+    else:
+        r.violation(key, C.loc(sl, calls[0]), f"SliceFinder models `{modelled}` but the indices are "
+                    f"removed from {sorted(applied)}: with reslice=True / inplace=False these are "
+                    "different trees and the targets hold for the wrong one")
     return r
 
 
